@@ -130,7 +130,25 @@ class Subst(ast.NodeTransformer):
         self.generic_visit(node)
         if isinstance(node.func, ast.Name) and node.func.id == 'cast' and len(node.args) == 2:
             return node.args[1]
+        # list(E) / tuple(E) / set(E) handed straight to another call is E as far as iteration goes
+        node.args = [uncopy(a) for a in node.args]
         return node
+
+    def visit_DictComp(self, node):
+        self.generic_visit(node)
+        # {k: None for k in X if c}: a dict used as an (ordered) set is the set {k for k in X if c}
+        if isinstance(node.value, ast.Constant) and node.value.value in (None, True) and len(node.generators) == 1 \
+                and isinstance(node.key, ast.Name) and isinstance(node.generators[0].target, ast.Name) \
+                and node.key.id == node.generators[0].target.id:
+            return ast.SetComp(elt=node.key, generators=node.generators)
+        return node
+
+
+def uncopy(a):
+    if isinstance(a, ast.Call) and isinstance(a.func, ast.Name) and a.func.id in ('list', 'tuple', 'set', 'frozenset') \
+            and len(a.args) == 1 and not a.keywords and not isinstance(a.args[0], ast.Starred):
+        return a.args[0]
+    return a
 
 
 def show(ctx, env, node):
@@ -245,6 +263,19 @@ def call_helper(ctx, path, call, awaited=False):
 
 def effect_of_value(ctx, path, value, bind=None):
     """evaluate an expression with side effects -> [(path', expression node standing for its value)]"""
+    if isinstance(value, ast.Tuple) and bind:
+        res = [(path, [])]
+        for elt in value.elts:
+            nxt = []
+            for p, acc in res:
+                if p.out is not None:
+                    nxt.append((p, acc))
+                elif pure(elt):
+                    nxt.append((p, acc + [Subst(ctx, p.env).visit(copy.deepcopy(elt))]))
+                else:
+                    nxt += [(q, acc + [v]) for q, v in effect_of_value(ctx, p, elt, bind=True)]
+            res = nxt
+        return [(p, ast.Tuple(elts=acc, ctx=ast.Load()) if p.out is None else None) for p, acc in res]
     awaited = isinstance(value, ast.Await)
     inner = value.value if awaited else value
     if isinstance(inner, ast.Call) and ctx.helper(inner):
@@ -267,6 +298,10 @@ def assign(ctx, path, target, valnode):
         for t, v in zip(target.elts, valnode.elts):
             path = assign(ctx, path, t, v)
         return path
+    if isinstance(target, ast.Subscript) and isinstance(valnode, ast.Constant) and valnode.value in (None, True):
+        # membership in a dict used as an ordered set
+        return path.fork(trace=path.trace + ('%s.add(%s)' % (show(ctx, path.env, target.value),
+                                                              show(ctx, path.env, target.slice)),))
     return path.fork(trace=path.trace + ('%s := %s' % (show(ctx, path.env, target), show(ctx, {}, valnode)),))
 
 
@@ -339,8 +374,19 @@ def step(ctx, s, path):
         else:
             need(False, 'loop target ' + ast.unparse(s.target))
         body = block_text(ctx, s.body, env)
-        return [path.fork(trace=path.trace + ('for item in %s %s' % (show(ctx, path.env, s.iter), body),))]
+        return [path.fork(trace=path.trace + ('for item in %s %s' % (show(ctx, path.env, uncopy(s.iter)), body),))]
     if isinstance(s, ast.Try):
+        tb = clean_body(s.body)
+        if len(tb) == 1 and isinstance(tb[0], ast.Delete) and len(tb[0].targets) == 1 \
+                and isinstance(tb[0].targets[0], ast.Attribute) and isinstance(tb[0].targets[0].value, ast.Name) \
+                and len(s.handlers) == 1 and s.handlers[0].type is not None \
+                and ast.unparse(s.handlers[0].type) == 'AttributeError' and not clean_body(s.handlers[0].body) \
+                and not clean_body(s.orelse) and not clean_body(s.finalbody):
+            # try: del o.x / except AttributeError: pass   ==   if hasattr(o, 'x'): del o.x
+            t = tb[0].targets[0]
+            test = ast.Call(func=ast.Name(id='hasattr', ctx=ast.Load()),
+                            args=[t.value, ast.Constant(value=t.attr)], keywords=[])
+            return step(ctx, ast.If(test=test, body=tb, orelse=[]), path)
         parts = ['try ' + block_text(ctx, s.body, path.env)]
         for h in s.handlers:
             parts.append('except %s %s' % (show(ctx, {}, h.type) if h.type else '*', block_text(ctx, h.body, path.env)))
@@ -497,6 +543,8 @@ def paths_of(tree, cls_name, fn_name, roles, fn=None):
     out = []
     for p in run(ctx, clean_body(fn.body), [Path(env=env)]):
         o = p.out
+        if o is not None and o[0] == 'return' and (o[1] is None or (isinstance(o[1], ast.Constant) and o[1].value is None)):
+            o = None
         if o is not None and o[0] == 'return' and o[1] is not None and not isinstance(o[1], str):
             o = ('return', show(ctx, {}, o[1]))
         out.append((dict(p.cond), normalise_trace(ctx, p.trace), o))
@@ -575,63 +623,42 @@ def check_request_handler(tree, checked):
     for h in t.handlers:
         need(h.type is not None and ast.unparse(h.type) not in ('BaseException', 'asyncio.CancelledError', 'CancelledError'),
              'request_handler outer handlers must let CancelledError through')
-    # the user function is awaited inside `with <deadline ctx>, <W>` and W is the object stored on the stream
+    # the user function is awaited inside `with <deadline ctx>, <W>`; on every path W is a fresh Wrapper or
+    # DeadlineWrapper that was stored on the protocol stream (`<stream>.wrapper = W`) before the with-block --
+    # wherever that is written (in place, in both branches, after them, in a private helper)
     withs = [w for w in ast.walk(t) if isinstance(w, ast.With)
              and any(isinstance(s, ast.Expr) and isinstance(s.value, ast.Await) and 'method_func' in ast.unparse(s.value)
                      for s in clean_body(w.body))]
     need(len(withs) == 1, 'one with-block around the user function')
     w = withs[0]
-    names = [i.context_expr.id for i in w.items if isinstance(i.context_expr, ast.Name)]
-    need(len(names) == len(w.items) and len(names) >= 1, 'with items are names')
-    # alias classes of local names, constructor calls they may hold
-    holds, alias = {}, {}
-    stores = []
-    for a in ast.walk(t):
-        if isinstance(a, (ast.Assign, ast.AnnAssign)) and getattr(a, 'value', None) is not None:
-            targets = a.targets if isinstance(a, ast.Assign) else [a.target]
-            tn = [x.id for x in targets if isinstance(x, ast.Name)]
-            if isinstance(a.value, ast.Call) and isinstance(a.value.func, ast.Name):
-                for n in tn:
-                    holds.setdefault(n, set()).add(a.value.func.id)
-            elif isinstance(a.value, ast.Name):
-                for n in tn:
-                    alias.setdefault(n, set()).add(a.value.id)
-            for x in targets:
-                if isinstance(x, ast.Attribute) and x.attr == 'wrapper':
-                    stores.append((a, set(tn) | ({a.value.id} if isinstance(a.value, ast.Name) else set()), a.value))
-
-    def ctor(n, seen=()):
-        out = set(holds.get(n, ()))
-        for m in alias.get(n, ()):
-            if m not in seen:
-                out |= ctor(m, seen + (n,))
-        return out
-    wname = names[-1]
-    need(ctor(wname) == {'Wrapper', 'DeadlineWrapper'}, 'the entered wrapper is a Wrapper or a DeadlineWrapper: %r' % ctor(wname))
-    need(stores, 'the wrapper is stored on the protocol stream (Stream.__terminated__ reaches it)')
-    # ... on every path: each creation of a wrapper is followed, in its own block or in an enclosing one and
-    # before the with-block, by such a store
-    parent = {}
+    need(all(isinstance(i.context_expr, ast.Name) for i in w.items) and w.items, 'with items are names')
+    wname = w.items[-1].context_expr.id
+    # the block that holds the try-statement around that with-block, up to that statement
+    holder = None
     for n in ast.walk(t):
         for fld, val in ast.iter_fields(n):
             if isinstance(val, list):
                 for k, c in enumerate(val):
-                    if isinstance(c, ast.AST):
-                        parent[c] = (n, val, k)
-    store_nodes = [a for a, _, _ in stores]
-    for a in ast.walk(t):
-        if isinstance(a, (ast.Assign, ast.AnnAssign)) and isinstance(getattr(a, 'value', None), ast.Call) \
-                and isinstance(a.value.func, ast.Name) and a.value.func.id in ('Wrapper', 'DeadlineWrapper'):
-            ok, cur = a in store_nodes, a
-            while not ok and cur in parent:
-                _, block, k = parent[cur]
-                ok = any(x in store_nodes and x.lineno < w.lineno for x in block[k + 1:])
-                cur = parent[cur][0]
-            need(ok, 'a wrapper is created (line %d) but not stored on the protocol stream' % a.lineno)
-    for a, ns, val in stores:
-        ok = wname in ns or (isinstance(val, ast.Call) and isinstance(val.func, ast.Name)
-                             and val.func.id in ('Wrapper', 'DeadlineWrapper') and wname in ns)
-        need(ok and a.lineno < w.lineno, 'what is stored on the stream is the wrapper entered afterwards')
+                    if isinstance(c, ast.Try) and any(x is w for x in ast.walk(c)) and c is not t \
+                            and not any(isinstance(y, ast.Try) and y is not c and any(x is w for x in ast.walk(y))
+                                        for y in ast.walk(c)):
+                        holder = (val, k)
+    need(holder is not None, 'the with-block sits in an inner try statement')
+    pre = clean_body(holder[0][:holder[1]])
+    ctx = Ctx(tree, None, {})
+    paths = run(ctx, pre, [Path()])
+    need(paths, 'no path reaches the with-block')
+    for p in paths:
+        need(p.out is None, 'the statements before the with-block return or raise: %r' % (p.trace,))
+        val = p.env.get(wname)
+        need(isinstance(val, ast.Name), 'the entered wrapper %s is not a fresh object: %r' % (wname, p.trace))
+        made = [e for e in p.trace if e.startswith(val.id + ' = ')]
+        need(len(made) == 1 and made[0].split(' = ', 1)[1] in ('Wrapper()', 'DeadlineWrapper()'),
+             'the entered wrapper is a Wrapper() or a DeadlineWrapper(): %r' % (made,))
+        need(any(e.endswith('.wrapper := ' + val.id) for e in p.trace),
+             'the entered wrapper is not stored on the protocol stream on this path: %r' % (p.trace,))
+    kinds = {e.split(' = ', 1)[1] for p in paths for e in p.trace if e.startswith(p.env[wname].id + ' = ')}
+    need(kinds == {'Wrapper()', 'DeadlineWrapper()'}, 'both kinds of wrapper: %r' % kinds)
     checked.append('grpclib/server.py:request_handler')
 
 
@@ -662,8 +689,8 @@ def check_reset_and_release(tree, checked):
                 'grpclib/protocol.py:EventsProcessor.register.<release callback>']
 
 
-def check_wrapper_exit(tree, checked):
-    ps = paths_of(tree, 'Wrapper', '__exit__', {'_tasks': 'A0', '_error': 'A1'})
+def check_wrapper_exit(tree, checked, roles):
+    ps = paths_of(tree, 'Wrapper', '__exit__', roles)       # A0 = the task set, A1 = the error
     need(len(ps) == 2, 'Wrapper.__exit__ cases')
     for cond, eff, o in ps:
         need(any('self.A0.discard(' in e for e in eff), 'Wrapper.__exit__ leaves the task set: %r' % (eff,))
@@ -698,8 +725,8 @@ def generate(repo):
     check_table(pro, 'grpclib/protocol.py', 'Stream', STREAM, checked)
     check_table(pro, 'grpclib/protocol.py', 'EventsProcessor', PROCESSOR, checked)
     check_reset_and_release(pro, checked)
-    check_table(utl, 'grpclib/utils.py', 'Wrapper', WRAPPER, checked)
-    check_wrapper_exit(utl, checked)
+    wroles = check_table(utl, 'grpclib/utils.py', 'Wrapper', WRAPPER, checked)
+    check_wrapper_exit(utl, checked, wroles)
     hi, si = gc_interval(srv, 'Handler'), gc_interval(srv, 'Server')
     out = ['(* GENERATED by tools/facts_C09.py from the current source -- do not edit. *)',
            '(* meaning of these functions checked (fail-closed, normal forms -- see the translator): *)']
